@@ -774,6 +774,29 @@ pub fn parts_c01() -> Vec<Box<dyn PartDyn>> {
         confirm_runs: 2,
             fuzz: None,
             watchdog_s: 60,
+    }),
+    // how a program ends belongs to the program: closes (by either side) that meet a backlog whose
+    // head was cut by a short write. The sessions and their oracle are C08's; what this part adds
+    // to C01 is that every such session runs with the stalled, trickling transport.
+    Box::new(Part::<crate::checks::c08::Case> {
+        name: "close-under-backlog",
+        rule: "C08's sessions (0-4 channels with racing numbered publishes and calls, closed by the client or by the server with arbitrary code and text) with the transport always stalled at the moment of closing - a few bytes of budget left, so the pending output begins in the middle of a frame - and released in small grants; oracle (C08's, of which C01 needs): the outbound log is the protocol header plus whole frames only, the racing publishes of each channel appear as #0..#m without gaps, duplicates or reordering, and the close frame (Close or CloseOk) is the last frame; non-trivial as in C08; distinct by case hash",
+        cases: |t| t.pick(600, 10_000),
+        threads: 16,
+        strategy: |t| {
+            crate::checks::c08::strat(t)
+                .prop_map(|mut c| {
+                    c.stalled = true;
+                    c
+                })
+                .boxed()
+        },
+        exec: crate::checks::c08::exec,
+        enumerate: None,
+        shrink_budget: 60,
+        confirm_runs: 2,
+        fuzz: None,
+        watchdog_s: 60,
     })]
 }
 
